@@ -56,42 +56,82 @@ Proof. induction l; destruct p; simpl; intros; try discriminate. inv H; auto. f_
 Lemma Forall_set_nth_clean : forall l p k nw, clean l -> is_missing nw = false -> clean (set_nth p (k, nw) l).
 Proof. intros. apply Forall_set_nth; auto. Qed.
 
+Lemma storable_not_missing : forall rv, storable_rv rv -> is_missing_rv rv = false.
+Proof. destruct rv; simpl; auto. destruct l; simpl; congruence. Qed.
+Lemma storable_no_ins : forall rv, storable_rv rv -> match rv with RIns v' => (true, v') | _ => (false, rv) end = (false, rv).
+Proof. destruct rv; simpl; intros; try contradiction; reflexivity. Qed.
+Lemma plain_rv_ok : forall rv, plain_rv rv -> rv_ok rv.
+Proof. destruct rv; simpl; auto; try contradiction. destruct l; auto; contradiction. Qed.
+Lemma storable_rv_ok : forall rv, storable_rv rv -> rv_ok rv.
+Proof. destruct rv; simpl; auto; try contradiction. destruct l; auto; contradiction. Qed.
+
+(* the result of every successful write into the list at position ps: the container is still there with the new items,
+   everything the frame needs for the next write is re-established *)
+Definition wrote (st : state) (ps : pos) (tid : N) (pa : option N) (fl : flags) (st' : state) (l' : list pv) : Prop :=
+  exists its', at_is st' ps tid KList pa fl its' /\ clean its' /\ evals its' = l' /\
+               keeps_other (fst ps) st st' /\ anc_clean st' ps /\ wfs st'.
+Definition dwrote (st : state) (ps : pos) (tid : N) (pa : option N) (fl : flags) (st' : state) (d' : list (key * pv)) : Prop :=
+  exists its', at_is st' ps tid KDict pa fl its' /\ clean its' /\ eitems its' = d' /\
+               keeps_other (fst ps) st st' /\ anc_clean st' ps /\ wfs st'.
+
 Section Prim.
-Variables (q : quirks) (sc : scope) (st : state) (r : nat) (tid : N) (fl : flags) (its : list (key * node)).
-Hypothesis ROOT : root_is st r tid KList fl its.
+Variables (q : quirks) (sc : scope) (st : state) (ps : pos) (tid : N) (pa : option N) (fl : flags) (its : list (key * node)).
+Variable k0 : kind.
+Hypothesis AT : at_is st ps tid k0 pa fl its.
+Hypothesis ANC : anc_clean st ps.
+
+(* the shape every write has: new items for the target, the replaced item detached *)
+Lemma written_here : forall st1 its' old,
+  roots st1 = roots st ->
+  at_is (add_detached (update_at st1 ps (set_items its')) old) ps tid k0 pa fl its' /\
+  keeps_other (fst ps) st (add_detached (update_at st1 ps (set_items its')) old) /\
+  anc_clean (add_detached (update_at st1 ps (set_items its')) old) ps.
+Proof.
+  intros. assert (G1 : get_at st1 ps = Some (Node tid k0 pa (snd ps) fl its)) by (rewrite (same_roots_get_at _ _ _ H); exact AT).
+  split; [|split].
+  - unfold at_is. eapply keeps_roots_get_at. apply keeps_roots_add_detached.
+    rewrite (get_at_update_at_same _ _ _ _ G1). reflexivity.
+  - red; intros. apply keeps_roots_add_detached. destruct ps as [r p]. rewrite get_root_update_at_other; auto.
+    rewrite (same_roots_get_root _ _ _ H). auto.
+  - eapply anc_clean_keeps. apply keeps_roots_add_detached.
+    + destruct (get_at_root_some _ _ _ (get_at_update_at_same _ _ (set_items its') _ G1)) as [t0 G0]. eauto.
+    + apply anc_clean_update_items. eapply anc_clean_same_roots; eauto.
+Qed.
+Lemma written_here' : forall st1 its',
+  roots st1 = roots st ->
+  at_is (update_at st1 ps (set_items its')) ps tid k0 pa fl its' /\
+  keeps_other (fst ps) st (update_at st1 ps (set_items its')) /\
+  anc_clean (update_at st1 ps (set_items its')) ps.
+Proof.
+  intros. assert (G1 : get_at st1 ps = Some (Node tid k0 pa (snd ps) fl its)) by (rewrite (same_roots_get_at _ _ _ H); exact AT).
+  split; [|split].
+  - unfold at_is. rewrite (get_at_update_at_same _ _ _ _ G1). reflexivity.
+  - red; intros. destruct ps as [r p]. rewrite get_root_update_at_other; auto. rewrite (same_roots_get_root _ _ _ H). auto.
+  - apply anc_clean_update_items. eapply anc_clean_same_roots; eauto.
+Qed.
+End Prim.
+
+Section LPrim.
+Variables (q : quirks) (sc : scope) (st : state) (ps : pos) (tid : N) (pa : option N) (fl : flags) (its : list (key * node)).
+Hypothesis AT : at_is st ps tid KList pa fl its.
 Hypothesis CLEAN : clean its.
+Hypothesis ANC : anc_clean st ps.
+Hypothesis WFS : wfs st.
 Let n := zlen its.
 
-(* the result of every successful write *)
-Definition wrote (st' : state) (l' : list pv) : Prop :=
-  exists its', root_is st' r tid KList fl its' /\ clean its' /\ evals its' = l' /\ keeps_other r st st'.
-
-Lemma wrote_here : forall st1 its' old,
-  roots st1 = roots st -> clean its' ->
-  wrote (add_detached (update_at st1 (r, []) (set_items its')) old) (evals its').
-Proof.
-  intros. exists its'. repeat split; auto.
-  - apply keeps_roots_add_detached. rewrite (get_root_update_at_same _ _ _ (Node tid KList None [] fl its)); [reflexivity|].
-    rewrite (same_roots_get_root _ _ _ H). exact ROOT.
-  - red; intros. apply keeps_roots_add_detached. rewrite get_root_update_at_other; auto.
-    rewrite (same_roots_get_root _ _ _ H). auto.
-Qed.
-Lemma wrote_here' : forall st1 its',
-  roots st1 = roots st -> clean its' ->
-  wrote (update_at st1 (r, []) (set_items its')) (evals its').
-Proof.
-  intros. exists its'. repeat split; auto.
-  - unfold root_is. rewrite (get_root_update_at_same _ _ _ (Node tid KList None [] fl its)); [reflexivity|]. rewrite (same_roots_get_root _ _ _ H). exact ROOT.
-  - red; intros. rewrite get_root_update_at_other; auto. rewrite (same_roots_get_root _ _ _ H). auto.
-Qed.
+Lemma wrote_of : forall st' its', wfs st' -> clean its' ->
+  at_is st' ps tid KList pa fl its' /\ keeps_other (fst ps) st st' /\ anc_clean st' ps -> wrote st ps tid pa fl st' (evals its').
+Proof. intros st' its' W C (A & K & AC). exists its'. auto 10. Qed.
 
 (* l[z] = v for an index in range: the item is replaced *)
 Lemma lprim_replace : forall z rv st' p,
-  plain_rv rv -> - n <= z < n -> lprim q sc st (r, []) (KI z) rv = (st', p) ->
+  plain_rv rv -> - n <= z < n -> lprim q sc st ps (KI z) rv = (st', p) ->
   (p = PNone \/ p = PUpd) /\
-  wrote st' (PyList.replace_nth (Z.to_nat (if z <? 0 then z + n else z)) (prv rv) (evals its)).
+  wrote st ps tid pa fl st' (PyList.replace_nth (Z.to_nat (if z <? 0 then z + n else z)) (prv rv) (evals its)).
 Proof.
-  intros z rv st' p PL RG E. unfold lprim in E. rewrite get_at_root, ROOT in E. fold n in E.
+  intros z rv st' p PL RG E.
+  pose proof (lprim_wfs _ _ _ _ _ _ _ _ WFS (plain_rv_ok _ PL) E) as W'.
+  unfold lprim in E. unfold at_is in AT. rewrite AT in E. fold n in E.
   replace (z >=? n) with false in E by lia. cbn [andb fst snd] in E.
   assert (NI : match rv with RIns v' => (true, v') | _ => (false, rv) end = (false, rv))
     by (destruct rv; simpl in PL; try contradiction; reflexivity).
@@ -100,47 +140,49 @@ Proof.
   assert (I : idx = (if z <? 0 then z + n else z)) by (unfold idx; destruct (z <? 0) eqn:?; auto; replace (z >=? - n) with true by lia; auto).
   assert (B : 0 <= idx < n) by (rewrite I; destruct (z <? 0) eqn:?; lia).
   replace (idx <? n) with true in E by lia. replace (idx <? 0) with false in E by lia. cbn [andb negb] in E.
-  destruct (nth_error its (Z.to_nat idx)) as [[k0 old]|] eqn:N.
+  destruct (nth_error its (Z.to_nat idx)) as [[kk old]|] eqn:N.
   2:{ apply nth_error_None in N. unfold n, zlen in B. lia. }
   rewrite <- I.
   destruct (same_obj old rv) eqn:S.
   - inv E. split; auto. exists its. repeat split; auto; try apply keeps_other_refl.
     symmetry. apply replace_nth_same. rewrite nth_error_evals, N. simpl. f_equal.
     apply same_obj_storable; auto.
-  - destruct (formalize q sc st r KList tid fl ([] ++ [KI idx]) false rv) as [nw st1] eqn:F.
+  - destruct (formalize q sc st (fst ps) KList tid fl (snd ps ++ [KI idx]) false rv) as [nw st1] eqn:F.
     destruct (formalize_storable _ _ _ _ _ _ _ _ _ _ _ _ (plain_storable _ PL) F) as (EN & MN & RS).
     inv E. split; auto. rewrite <- EN.
     rewrite <- evals_set_nth with (k := KI idx).
-    apply wrote_here; auto. apply Forall_set_nth_clean; auto.
+    apply wrote_of; auto. apply Forall_set_nth_clean; auto.
+    eapply written_here; eauto.
 Qed.
-Lemma storable_not_missing : forall rv, storable_rv rv -> is_missing_rv rv = false.
-Proof. destruct rv; simpl; auto. destruct l; simpl; congruence. Qed.
-Lemma storable_no_ins : forall rv, storable_rv rv -> match rv with RIns v' => (true, v') | _ => (false, rv) end = (false, rv).
-Proof. destruct rv; simpl; intros; try contradiction; reflexivity. Qed.
 
 (* l.append(v) / a write at an index past the end: the value is appended *)
 Lemma lprim_append : forall z rv st' p,
-  storable_rv rv -> n <= z -> lprim q sc st (r, []) (KI z) rv = (st', p) ->
-  p = PUpd /\ wrote st' (evals its ++ [prv rv]).
+  storable_rv rv -> n <= z -> lprim q sc st ps (KI z) rv = (st', p) ->
+  p = PUpd /\ wrote st ps tid pa fl st' (evals its ++ [prv rv]).
 Proof.
-  intros z rv st' p PL RG E. unfold lprim in E. rewrite get_at_root, ROOT in E. fold n in E.
+  intros z rv st' p PL RG E.
+  pose proof (lprim_wfs _ _ _ _ _ _ _ _ WFS (storable_rv_ok _ PL) E) as W'.
+  unfold lprim in E. unfold at_is in AT. rewrite AT in E. fold n in E.
   replace (z >=? n) with true in E by lia. rewrite (storable_not_missing _ PL) in E. cbn [andb fst snd] in E.
   rewrite (storable_no_ins _ PL) in E.
   assert (NN : 0 <= n) by (unfold n, zlen; lia).
   replace (n <? 0) with false in E by lia. replace (n <? n) with false in E by lia. cbn [andb] in E.
-  destruct (formalize q sc st r KList tid fl ([] ++ [KI n]) false rv) as [nw st1] eqn:F.
+  destruct (formalize q sc st (fst ps) KList tid fl (snd ps ++ [KI n]) false rv) as [nw st1] eqn:F.
   destruct (formalize_storable _ _ _ _ _ _ _ _ _ _ _ _ PL F) as (EN & MN & RS).
   inv E. split; auto. rewrite <- EN.
   replace (evals its ++ [erase nw]) with (evals (its ++ [(KI n, nw)])) by (rewrite evals_app; reflexivity).
-  apply wrote_here'; auto. apply clean_app; auto. constructor; auto.
+  apply wrote_of; auto. { apply clean_app; auto. constructor; auto. }
+  eapply written_here'; eauto.
 Qed.
 
 (* an insertion marker inserts: list.insert with its clamping *)
 Lemma lprim_insert : forall z rv st' p,
-  storable_rv rv -> lprim q sc st (r, []) (KI z) (RIns rv) = (st', p) ->
-  p = PUpd /\ wrote st' (PyList.insert (evals its) z (prv rv)).
+  storable_rv rv -> lprim q sc st ps (KI z) (RIns rv) = (st', p) ->
+  p = PUpd /\ wrote st ps tid pa fl st' (PyList.insert (evals its) z (prv rv)).
 Proof.
-  intros z rv st' p PL E. unfold lprim in E. rewrite get_at_root, ROOT in E. fold n in E.
+  intros z rv st' p PL E.
+  pose proof (lprim_wfs _ _ _ _ _ _ _ _ WFS (storable_rv_ok _ PL : rv_ok (RIns rv)) E) as W'.
+  unfold lprim in E. unfold at_is in AT. rewrite AT in E. fold n in E.
   replace (is_missing_rv (RIns rv)) with false in E by reflexivity. rewrite andb_false_r in E. cbn [fst snd] in E.
   assert (NN : 0 <= n) by (unfold n, zlen; lia).
   set (idx0 := if z >=? n then n else z) in *.
@@ -150,22 +192,24 @@ Proof.
     destruct (z >=? n) eqn:Hzn; repeat match goal with |- context [if ?b then _ else _] => destruct b eqn:? end; lia. }
   destruct P as [P B].
   rewrite andb_false_r in E.
-  destruct (formalize q sc st r KList tid fl ([] ++ [KI idx]) true rv) as [nw st1] eqn:F.
+  destruct (formalize q sc st (fst ps) KList tid fl (snd ps ++ [KI idx]) true rv) as [nw st1] eqn:F.
   destruct (formalize_storable _ _ _ _ _ _ _ _ _ _ _ _ PL F) as (EN & MN & RS).
   unfold PyList.insert. rewrite <- P, <- EN.
   destruct (idx <? n) eqn:L; inv E; split; auto.
   - replace (firstn (Z.to_nat idx) (evals its) ++ erase nw :: skipn (Z.to_nat idx) (evals its))
-      with (evals (renum [] (insert_at (Z.to_nat idx) (KI idx, nw) its))).
+      with (evals (renum (snd ps) (insert_at (Z.to_nat idx) (KI idx, nw) its))).
     2:{ rewrite evals_renum, evals_insert_at; auto. unfold n, zlen in *. lia. }
-    apply wrote_here'; auto. apply clean_renum. apply Forall_insert_at; auto.
-  - assert (idx = n) by lia. rewrite H.
+    apply wrote_of; auto. { apply clean_renum. apply Forall_insert_at; auto. }
+    eapply written_here'; eauto.
+  - assert (idx = n) by lia. rewrite H in W'. rewrite H.
     replace (firstn (Z.to_nat n) (evals its) ++ erase nw :: skipn (Z.to_nat n) (evals its))
       with (evals (its ++ [(KI n, nw)])).
     2:{ rewrite evals_app. unfold n, zlen. rewrite Nat2Z.id. rewrite <- (evals_length its).
         rewrite firstn_all, skipn_all. reflexivity. }
-    apply wrote_here'; auto. apply clean_app; auto. constructor; auto.
+    apply wrote_of; auto. { apply clean_app; auto. constructor; auto. }
+    eapply written_here'; eauto.
 Qed.
-End Prim.
+End LPrim.
 
 (* --- the dict primitive ---------------------------------------------------------------------------------------------- *)
 Lemma dset_same : forall (k : key) (v : pv) d, PyDict.dget key_eqb k d = Some v -> PyDict.dset key_eqb k v d = d.
@@ -175,30 +219,24 @@ Proof.
 Qed.
 
 Section DPrim.
-Variables (q : quirks) (sc : scope) (st : state) (r : nat) (tid : N) (fl : flags) (its : list (key * node)).
-Hypothesis ROOT : root_is st r tid KDict fl its.
+Variables (q : quirks) (sc : scope) (st : state) (ps : pos) (tid : N) (pa : option N) (fl : flags) (its : list (key * node)).
+Hypothesis AT : at_is st ps tid KDict pa fl its.
 Hypothesis CLEAN : clean its.
+Hypothesis ANC : anc_clean st ps.
+Hypothesis WFS : wfs st.
 
-Definition dwrote (st' : state) (d' : list (key * pv)) : Prop :=
-  exists its', root_is st' r tid KDict fl its' /\ clean its' /\ eitems its' = d' /\ keeps_other r st st'.
-
-Lemma dwrote_here : forall st1 its' old,
-  roots st1 = roots st -> clean its' ->
-  dwrote (add_detached (update_at st1 (r, []) (set_items its')) old) (eitems its').
-Proof.
-  intros. exists its'. repeat split; auto.
-  - apply keeps_roots_add_detached. rewrite (get_root_update_at_same _ _ _ (Node tid KDict None [] fl its)); [reflexivity|].
-    rewrite (same_roots_get_root _ _ _ H). exact ROOT.
-  - red; intros. apply keeps_roots_add_detached. rewrite get_root_update_at_other; auto.
-    rewrite (same_roots_get_root _ _ _ H). auto.
-Qed.
+Lemma dwrote_of : forall st' its', wfs st' -> clean its' ->
+  at_is st' ps tid KDict pa fl its' /\ keeps_other (fst ps) st st' /\ anc_clean st' ps -> dwrote st ps tid pa fl st' (eitems its').
+Proof. intros st' its' W C (A & K & AC). exists its'. auto 10. Qed.
 
 (* d[k] = v *)
 Lemma dprim_set : forall k rv st' p,
-  plain_rv rv -> dprim q sc st (r, []) k rv = (st', p) ->
-  (p = PNone \/ p = PUpd) /\ dwrote st' (PyDict.dset key_eqb k (prv rv) (eitems its)).
+  plain_rv rv -> dprim q sc st ps k rv = (st', p) ->
+  (p = PNone \/ p = PUpd) /\ dwrote st ps tid pa fl st' (PyDict.dset key_eqb k (prv rv) (eitems its)).
 Proof.
-  intros k rv st' p PL E. unfold dprim in E. rewrite get_at_root, ROOT in E. cbn [fst snd] in E.
+  intros k rv st' p PL E.
+  pose proof (dprim_wfs _ _ _ _ _ _ _ _ WFS (plain_rv_ok _ PL) E) as W'.
+  unfold dprim in E. unfold at_is in AT. rewrite AT in E. cbn [fst snd] in E.
   set (old := match assoc k its with Some o => o | None => Leaf LMissing end) in *.
   destruct (same_obj old rv) eqn:S.
   - inv E. split; auto. exists its. repeat split; auto; try apply keeps_other_refl.
@@ -207,22 +245,26 @@ Proof.
     + f_equal. apply same_obj_storable; auto.
     + exfalso. destruct rv; simpl in *; try discriminate. destruct l; simpl in *; discriminate.
   - rewrite (storable_not_missing _ (plain_storable _ PL)) in E.
-    destruct (formalize q sc st r KDict tid fl ([] ++ [k]) false rv) as [nw st1] eqn:F.
+    destruct (formalize q sc st (fst ps) KDict tid fl (snd ps ++ [k]) false rv) as [nw st1] eqn:F.
     destruct (formalize_storable _ _ _ _ _ _ _ _ _ _ _ _ (plain_storable _ PL) F) as (EN & MN & RS).
     inv E. split; auto. rewrite <- EN, <- eitems_set_assoc.
-    apply dwrote_here; auto. apply clean_set_assoc; auto.
+    apply dwrote_of; auto. { apply clean_set_assoc; auto. }
+    eapply written_here; eauto.
 Qed.
 
 (* del d[k] (the primitive is called with the MISSING_VALUE marker) *)
 Lemma dprim_del : forall k st' p,
-  has_key k its = true -> dprim q sc st (r, []) k (RLeaf LMissing) = (st', p) ->
-  p = PUpd /\ dwrote st' (PyDict.ddel key_eqb k (eitems its)).
+  has_key k its = true -> dprim q sc st ps k (RLeaf LMissing) = (st', p) ->
+  p = PUpd /\ dwrote st ps tid pa fl st' (PyDict.ddel key_eqb k (eitems its)).
 Proof.
-  intros k st' p HK E. unfold dprim in E. rewrite get_at_root, ROOT in E. cbn [fst snd] in E.
+  intros k st' p HK E.
+  pose proof (dprim_wfs _ _ _ _ _ _ _ _ WFS (I : rv_ok (RLeaf LMissing)) E) as W'.
+  unfold dprim in E. unfold at_is in AT. rewrite AT in E. cbn [fst snd] in E.
   unfold has_key in HK. destruct (assoc k its) as [o|] eqn:A; try discriminate.
   pose proof (clean_assoc _ _ _ CLEAN A) as M.
   replace (same_obj o (RLeaf LMissing)) with false in E by (symmetry; exact M).
   simpl in E. inv E. split; auto. rewrite <- eitems_remove_assoc.
-  apply dwrote_here; auto. apply clean_remove_assoc; auto.
+  apply dwrote_of; auto. { apply clean_remove_assoc; auto. }
+  eapply (written_here st ps tid pa fl its KDict AT ANC st); eauto.
 Qed.
 End DPrim.
